@@ -14,7 +14,7 @@ import random
 
 import z3
 
-from vlib import circ, symeval
+from vlib import circ, report, symeval
 from checks.common import REPLAY_PRELUDE
 
 LEVEL = "other"
@@ -488,6 +488,11 @@ def make_configs(tier, rnd):
         cfgs.append(dict(tt=[[0, 0, 0, 1], [0, 1, 1, "*"]], r=2, basis="enum:AIG", model_copy=mc))
         cfgs.append(dict(tt=[[0, 1, 1, "*"], ["*", 0, 0, 1]], r=2, basis="enum:XAIG", model_copy=mc))
         cfgs.append(dict(tt=[["*", 1, 1, 0]], r=1, basis="enum:FULL", model_copy=mc))
+    # the empty operation list is a basis too (no gate is allowed: no circuit with r >= 1 gates exists), and so are
+    # one-element lists and lists given as tuples
+    for tt_, r_ in (([[0, 1, 1, 0]], 1), ([[0, 0, 0, 1]], 1), ([["*", "*", "*", "*"]], 1), ([[0, 1, 1, 0], [0, 0, 0, 1]], 2), ([[0, 1]], 1), ([[0, 1, 1, 1, 1, 1, 1, 0]], 2)):
+        cfgs.append(dict(tt=tt_, r=r_, basis=[]))
+        cfgs.append(dict(tt=tt_, r=r_, basis=["xor_"]))
     # n = 3
     for _ in range(300 if thorough else 50):
         m = rnd.choice([1, 1, 2])
@@ -596,6 +601,77 @@ def timeout_unit(p, item, tier, seed):
             return
 
 
+REUSE_SRC = """
+def constrain_after_search(cfg, which):
+    # one finder object: search, then impose a constraint the first answer violates, then search again.
+    # The second answer obeys the new constraint too; 'no solution' the second time exactly when a fresh finder
+    # with all constraints says so.
+    from checks import c06
+    from cirbo.core.circuit import gate as G
+    from cirbo.synthesis.exception import NoSolutionError
+    n, m, r = c06.dims(cfg)
+    f = c06.build_finder(cfg)
+    try:
+        c1 = f.find_circuit()
+    except NoSolutionError:
+        return None
+    labels = [str(i) for i in range(n)] + ['s%d' % g for g in range(n, n + r)]
+    idx = {lab: i for i, lab in enumerate(labels)}
+    g = n + (which % r)
+    a, b = sorted(idx[o] for o in c1.gates['s%d' % g].operands)
+    if which % 3 == 2:
+        # a fix_gate call the first answer does not satisfy: other predecessors, if there are any
+        others = [(x, y) for x in range(g) for y in range(x + 1, g) if (x, y) != (a, b)]
+        if not others:
+            return None
+        x, y = others[which % len(others)]
+        extra = ('fix', g, x, y, None)
+        f.fix_gate(g, first_predecessor=x, second_predecessor=y)
+    else:
+        u = (a, b)[which % 2]
+        extra = ('forbid', u, g)
+        f.forbid_wire(u, g)
+    cfg2 = dict(cfg, constraints=list(cfg.get('constraints', [])) + [extra])
+    try:
+        fresh = c06.build_finder(cfg2).find_circuit()
+    except NoSolutionError:
+        fresh = None
+    try:
+        c2 = f.find_circuit()
+    except NoSolutionError:
+        return None if fresh is None else 'second search on the same finder reports no solution after %r although one exists' % (extra,)
+    probs = c06.admissible_problems(cfg2, c2)
+    if probs:
+        return 'second search on the same finder after %r returned an inadmissible circuit: %r' % (extra, probs[:3])
+    if fresh is None:
+        return 'second search on the same finder returned a circuit after %r although a fresh finder finds none' % (extra,)
+    return None
+"""
+exec(REUSE_SRC)  # noqa: S102
+
+
+def reuse_unit(p, item, tier, seed):
+    for k, cfg in enumerate(item):
+        cfg = {kk: v for kk, v in cfg.items() if kk != "time_limit"}
+        if dims(cfg)[2] < 1:
+            continue
+        for which in (k, k + 1, k + 2):
+            p.case(("reuse", repr(cfg), which), sample=f"search, constrain against the answer, search again: {cfg}" if len(p.samples) < 2 else None)
+            try:
+                bad = constrain_after_search(cfg, which)  # noqa: F821
+            except RejectedCallAccepted:
+                break
+            except Exception as e:  # noqa: BLE001
+                if not report.raised_in_library(e):
+                    raise
+                bad = f"raised {type(e).__name__}: {e}"
+            p.queries["sat" if bad else "unsat"] += 1
+            if bad:
+                p.violation("find_circuit:constraint-added-after-a-search", f"{bad} for {cfg}",
+                            HEAD + REUSE_SRC + f"cfg={cfg!r}\ntry:\n    bad=constrain_after_search(cfg, {which})\nexcept Exception as e:\n    bad=type(e).__name__+': '+str(e)\nprint(bad); sys.exit(1 if bad else 0)\n")
+                return
+
+
 def run(rep, tier, seed, only=None):
     rep.functions = ["CircuitFinderSat.__init__ / get_cnf / _init_default_cnf_formula / _add_exactly_one_of / _is_dont_cares_input",
                      "fix_gate / forbid_wire / need_normalized", "find_circuit (plain and time_limit via pebble) / _solve_cnf / _get_circuit_by_model / _tt_to_gate_type",
@@ -617,3 +693,6 @@ def run(rep, tier, seed, only=None):
     rep.pmap(unit, [forked], procs=1)
     plain = [c for c in cfgs if not c.get("constraints")][: 24 if tier == "quick" else 80]
     rep.pmap(timeout_unit, [plain[i::8] for i in range(8)])
+    rep.bounds['one finder, several searches'] = 'search / forbid_wire or fix_gate against the first answer / search again, 3 constraint choices per configuration, compared with a fresh finder'
+    again = [c for c in cfgs if dims(c)[2] >= 1][: 48 if tier == "quick" else 200]
+    rep.pmap(reuse_unit, [again[i::16] for i in range(16)])
